@@ -161,7 +161,7 @@ func c10scenario(r1, r2, x, k1, k2 bool, r1tasks int) zzmc.Scenario {
 func checkC10(c *runCtx) {
 	c.assume("sequential consistency between scheduling points (every channel, mutex, Once, WaitGroup, atomic operation and go statement of taskloop.go is a scheduling point; task bodies contain one more)",
 		"the instrumented sources are behaviourally equivalent to the originals (translation check: the repository's test-suite passes on the instrumented build with the runtime passive)")
-	dl := c01deadline(c, 120, 900)
+	dl := c01deadline(c, 240, 900)
 	b := 2
 	if !c.quick() {
 		b = 3
